@@ -26,7 +26,7 @@ from floatcmp import f2b, b2f  # noqa: E402
 from parallel import driver_parallel  # noqa: E402
 
 GEN = ['KernF', 'KernR']
-PROPS = ['FinVerif.Props.C20a', 'FinVerif.Props.C20b', 'FinVerif.Props.C20c']
+PROPS = ['FinVerif.Props.C20a', 'FinVerif.Props.C20b', 'FinVerif.Props.C20c', 'FinVerif.Props.C20d', 'FinVerif.Props.C20e']
 DRIVERS = ['FinVerif.Driver.C20']
 
 RULE = ('scalar kernels: dense grid on [-38,38] (step 0.025) + seeded uniform/normal samples + boundary values '
@@ -436,11 +436,22 @@ def ndtr1(x):
 
 # ------------------------------------------------------------------------------------------- root finders
 def fam_f(x, a):
+    """objective families (same operation order as famF in Driver/C20.lean): 0 cubic, 1 exponential + linear;
+    locally flat ones: 2 option payoff minus premium max(s(x-K),0)-prem, 3 clipped min(max(x,lo),hi)-target,
+    4 step (x < a ? l : r)."""
     import numpy as np
     fam, c0, c1, c2, c3 = a
     if fam == 0:
         return ((c3 * x + c2) * x + c1) * x + c0
-    return c0 + c1 * float(np.exp(c2 * x)) + c3 * x
+    if fam == 1:
+        return c0 + c1 * float(np.exp(c2 * x)) + c3 * x
+    if fam == 2:
+        y = c2 * (x - c0)
+        return (y if y > 0.0 else 0.0) - c1
+    if fam == 3:
+        y = c0 if x < c0 else (c1 if x > c1 else x)
+        return y - c2
+    return c1 if x < c0 else c2
 
 
 def fam_d(x, a):
@@ -448,7 +459,28 @@ def fam_d(x, a):
     fam, c0, c1, c2, c3 = a
     if fam == 0:
         return (3.0 * c3 * x + 2.0 * c2) * x + c1
-    return c1 * c2 * float(np.exp(c2 * x)) + c3
+    if fam == 1:
+        return c1 * c2 * float(np.exp(c2 * x)) + c3
+    if fam == 2:
+        return c2 if c2 * (x - c0) > 0.0 else 0.0
+    if fam == 3:
+        return 0.0 if x < c0 else (0.0 if x > c1 else 1.0)
+    return 0.0
+
+
+def fam_d2(x, a):
+    import numpy as np
+    fam, c0, c1, c2, c3 = a
+    if fam == 0:
+        return 6.0 * c3 * x + 2.0 * c2
+    if fam == 1:
+        return c1 * c2 * c2 * float(np.exp(c2 * x))
+    return 0.0
+
+
+def fam_kinks(a):
+    """abscissae where a locally flat family changes regime."""
+    return {2: [a[1]], 3: [a[1], a[2]], 4: [a[1]]}.get(a[0], [])
 
 
 _NB = {}
@@ -463,7 +495,23 @@ def fam_nb():
         def f(x, fam, c0, c1, c2, c3):
             if fam == 0:
                 return ((c3 * x + c2) * x + c1) * x + c0
-            return c0 + c1 * np.exp(c2 * x) + c3 * x
+            if fam == 1:
+                return c0 + c1 * np.exp(c2 * x) + c3 * x
+            if fam == 2:
+                y = c2 * (x - c0)
+                if y > 0.0:
+                    return y - c1
+                return 0.0 - c1
+            if fam == 3:
+                y = x
+                if x < c0:
+                    y = c0
+                elif x > c1:
+                    y = c1
+                return y - c2
+            if x < c0:
+                return c1
+            return c2
         _NB['f'] = f
     return _NB['f']
 
@@ -489,20 +537,60 @@ def solver_cases(ctx, n):
     return out
 
 
+def flat_cases(ctx, n):
+    """locally flat objectives (families 2-4): the secant through two points of a flat stretch has no zero, Newton's
+    derivative vanishes there; whether a root exists at all varies (target outside the clip range, step without sign change)."""
+    rng = ctx.rng('solvers-flat')
+    out = []
+    for i in range(n):
+        k = (2, 3, 4)[i % 3]
+        if k == 2:
+            c = (rng.choice([rng.uniform(-3, 3), float(rng.randrange(-3, 4)), 100.0]), rng.choice([rng.uniform(0.05, 2), 7.5, 0.0]),
+                 rng.choice([-1.0, 1.0]), 0.0)
+        elif k == 3:
+            lo = rng.choice([rng.uniform(-3, 2), 0.0])
+            hi = lo + rng.choice([rng.uniform(0.2, 3), 1.0])
+            t = rng.choice([rng.uniform(lo, hi), rng.uniform(lo, hi), 0.5 * (lo + hi), lo, hi, lo - 1.0, hi + 0.5])
+            c = (lo, hi, t, 0.0)
+        else:
+            same_sign = rng.random() < 0.3
+            l_ = rng.uniform(0.1, 2) * rng.choice([-1, 1])
+            r_ = rng.uniform(0.1, 2) * (1 if (l_ > 0) == same_sign else -1)
+            c = (rng.choice([rng.uniform(-3, 3), 0.0]), l_, r_, 0.0)
+        out.append((k,) + tuple(float(x) for x in c))
+    return out
+
+
+def flat_start(rng, a):
+    """a start on either side of a kink, on it, within the solver's own 1e-4 perturbation of it, at 0 and far away."""
+    kk = rng.choice(fam_kinks(a))
+    return float(rng.choice([kk + rng.uniform(-4, 4), kk + rng.uniform(-4, 4), kk - rng.uniform(0.01, 30), kk + rng.uniform(0.01, 30), kk,
+                             kk * (1 + rng.uniform(-1e-4, 1e-4)) + rng.uniform(-1e-4, 1e-4), 0.0, kk + rng.choice([-50.0, 50.0])]))
+
+
 def solvers_section(ctx, meas, drivers_ok):
     import numpy as np
     from financepy.utils import solver_1d as S
     rng = ctx.rng('solver-args')
+    rngf = ctx.rng('solver-args-flat')
     n = 700 if ctx.quick() else 6000
     fams = solver_cases(ctx, n)
+    flats = flat_cases(ctx, 240 if ctx.quick() else 2400)
 
     # ---------------- bisection (plain Python in the package: compiled stream == py stream)
     ops, inputs, impl = [], [], []
-    for a in fams:
-        x1 = rng.uniform(-6, 2)
-        x2 = x1 + rng.choice([rng.uniform(0.5, 9), rng.uniform(0.5, 9), 5e-11, -1.0])
-        xtol = rng.choice([1e-6, 1e-9, 1e-3, 1e-12])
-        mi = rng.choice([100, 100, 100, 60, 10, 3, 0])
+    for a in fams + flats:
+        if a[0] < 2:
+            x1 = rng.uniform(-6, 2)
+            x2 = x1 + rng.choice([rng.uniform(0.5, 9), rng.uniform(0.5, 9), 5e-11, -1.0])
+            xtol = rng.choice([1e-6, 1e-9, 1e-3, 1e-12])
+            mi = rng.choice([100, 100, 100, 60, 10, 3, 0])
+        else:
+            kk = rngf.choice(fam_kinks(a))
+            x1 = kk + rngf.choice([-rngf.uniform(0.1, 5), -rngf.uniform(0.1, 5), rngf.uniform(0.1, 3), 0.0, -40.0])
+            x2 = x1 + rngf.choice([rngf.uniform(0.5, 9), rngf.uniform(0.5, 9), 60.0, 5e-11, -1.0])
+            xtol = rngf.choice([1e-6, 1e-9, 1e-3, 1e-12])
+            mi = rngf.choice([100, 100, 100, 60, 10, 3, 0])
         v = call(S.bisection, fam_f, x1, x2, a, xtol, mi)
         ops.append(f'bisect {a[0]} ' + ' '.join(f2b(c) for c in a[1:]) + f' {f2b(x1)} {f2b(x2)} {f2b(xtol)} {mi}')
         case = {'solver': 'bisection', 'fam': a[0], 'coef': a[1:], 'x1': x1, 'x2': x2, 'xtol': xtol, 'maxiter': mi}
@@ -515,7 +603,8 @@ def solvers_section(ctx, meas, drivers_ok):
             if not (abs(fr) < xtol and x1 <= r <= x2):
                 ctx.violation('bisection returned a point that is not a root to tolerance inside the bracket',
                               dict(case, root=r, f_at_root=fr), clause='root-or-error')
-        elif v[0] == 'n' and x2 - x1 > 1e-3 and mi >= 60 and xtol >= 1e-9:
+        elif v[0] == 'n' and x2 - x1 > 1e-3 and mi >= 60 and xtol >= 1e-9 and a[0] != 4:
+            # (family 4 is a step: a bracketed sign change without a root; None is the correct report there)
             f1, f2 = fam_f(x1, a), fam_f(x2, a)
             if f1 * f2 < 0:
                 ctx.violation('bisection reported failure although a sign change of a smooth function was bracketed '
@@ -524,10 +613,15 @@ def solvers_section(ctx, meas, drivers_ok):
 
     # ---------------- newton (plain Python)
     ops, inputs, impl = [], [], []
-    for a in fams:
-        x0 = rng.uniform(-5, 5)
-        tol = rng.choice([1.48e-8, 1e-10, 1e-6, 0.0])
-        mi = rng.choice([50, 50, 50, 20, 5, 1, 0])
+    for a in fams + flats:
+        if a[0] < 2:
+            x0 = rng.uniform(-5, 5)
+            tol = rng.choice([1.48e-8, 1e-10, 1e-6, 0.0])
+            mi = rng.choice([50, 50, 50, 20, 5, 1, 0])
+        else:
+            x0 = flat_start(rngf, a)
+            tol = rngf.choice([1.48e-8, 1e-10, 1e-6, 0.0])
+            mi = rngf.choice([50, 50, 50, 20, 5, 1, 0])
         cnt = [0]
 
         def f(x, args, cnt=cnt):
@@ -564,12 +658,18 @@ def solvers_section(ctx, meas, drivers_ok):
     # ---------------- newton_secant (jitted; func must be jitted)
     fnb = fam_nb()
     ops, inputs, comp, pyv, pending = [], [], [], [], []
-    sub = fams[: (250 if ctx.quick() else 2000)]
+    sub = fams[: (250 if ctx.quick() else 2000)] + flats
     for a in sub:
-        x0 = rng.uniform(-5, 5)
-        tol = rng.choice([1.48e-8, 1e-7, 1e-10])
-        mi = rng.choice([50, 50, 20, 5, 2])
-        disp = rng.random() < 0.8
+        if a[0] < 2:
+            x0 = rng.uniform(-5, 5)
+            tol = rng.choice([1.48e-8, 1e-7, 1e-10])
+            mi = rng.choice([50, 50, 20, 5, 2])
+            disp = rng.random() < 0.8
+        else:
+            x0 = flat_start(rngf, a)
+            tol = rngf.choice([1.48e-8, 1e-7, 1e-10, 1e-6])
+            mi = rngf.choice([50, 50, 20, 5, 2, 1])
+            disp = rngf.random() < 0.8
         args = (int(a[0]),) + a[1:]
         v = call(S.newton_secant, fnb, x0, args, tol, mi, disp)
         w = call(S.newton_secant.py_func, fnb, x0, args, tol, mi, disp)
@@ -578,10 +678,18 @@ def solvers_section(ctx, meas, drivers_ok):
         inputs.append(case)
         comp.append(v)
         pyv.append(w)
-        pending.append((case, a, v, disp))
-    def is_root(a, r):
+        pending.append((case, a, v, w, disp))
+
+    def is_root(a, r, tol=None):
+        """the property's clause: |f| below tolerance (scaled by the slope), or -- for the piecewise families -- a sign
+        change of f bracketed within the tolerance around the returned point."""
         fr, fd = fam_f(r, a), fam_d(r, a)
-        return abs(fr) <= 1e-5 * max(abs(fd), 1.0)
+        if abs(fr) <= 1e-5 * max(abs(fd), 1.0):
+            return True
+        if a[0] >= 2 and tol is not None:
+            h = 10.0 * tol * max(1.0, abs(r))
+            return fam_f(r - h, a) * fam_f(r + h, a) <= 0.0
+        return False
 
     def secant_equiv(inp, x, y):
         # the secant iteration is chaotic when it does not converge (1-ulp differences from fastmath are amplified):
@@ -590,20 +698,139 @@ def solvers_section(ctx, meas, drivers_ok):
         if x[0] != 'f' or y[0] != 'f':
             return False
         a = (inp['fam'],) + tuple(inp['coef'])
-        rx, ry = is_root(a, x[1]), is_root(a, y[1])
+        rx, ry = is_root(a, x[1], inp['tol']), is_root(a, y[1], inp['tol'])
         return (rx and ry) or (not rx and not ry and not inp['disp'])
     model = three_streams(ctx, meas, 'newton_secant', ops, inputs, comp, pyv, drivers_ok, rtol=1e-6, atol=1e-8, equiv=secant_equiv)
-    for i, (case, a, v, disp) in enumerate(pending):
-        if v[0] == 'f' and disp:
+    nflat = nflat_reported = nsilent = nnonroot = 0
+    for i, (case, a, v, w, disp) in enumerate(pending):
+        # flat start: the two starting abscissae have equal ordinates -> theorem newton_secant_flat_start_reports_failure
+        # says the source raises; the implementation (compiled and interpreted) must do so too, whatever disp
+        p0 = 1.0 * case['x0']
+        p1 = case['x0'] * (1.0 + 1e-4)
+        p1 = p1 + 1e-4 if p1 > 0.0 else p1 - 1e-4
+        if fam_f(p0, a) == fam_f(p1, a) and p0 != p1:
+            nflat += 1
+            for stream, res in (('compiled', v), ('py_func', w)):
+                if res == ('e', 'FinError'):
+                    nflat_reported += 1
+                    continue
+                nsilent += 1
+                if nsilent <= 6:
+                    ctx.violation(f'newton_secant ({stream}): the objective takes the same value at the two distinct starting '
+                                  'abscissae (no secant step exists) but no failure was reported',
+                                  dict(case, p0=p0, p1=p1, f_at_both=fam_f(p0, a), returned=show(res),
+                                       f_at_returned=fam_f(res[1], a) if res[0] == 'f' else None,
+                                       model=show(model[i]) if model else None), clause='failure-reported')
+        for stream, res in (('compiled', v), ('py_func', w)):
+            if res[0] == 'f' and disp:
+                r = res[1]
+                fr = fam_f(r, a)
+                if not is_root(a, r, case['tol']) and not math.isnan(fr):
+                    # narrow classifier: the Lean model of the source (which provably returns only under the step-size
+                    # criterion with DIFFERENT ordinates or at coinciding abscissae, theorem secant_returns_post)
+                    # returns the same number
+                    agrees = model is not None and same(res, model[i], 1e-6, 1e-8)
+                    if stream == 'py_func' and same(v, w, 1e-6, 1e-8):
+                        continue    # same observation as the compiled stream, already reported
+                    if not agrees:
+                        nnonroot += 1
+                        if nnonroot > 6:
+                            continue
+                    ctx.violation(f'newton_secant ({stream}, disp=True) returned a number that is not near a root',
+                                  dict(case, returned=r, f_at_returned=fr, model=show(model[i]) if model else None),
+                                  finding='C20/secant-step-criterion-nonroot' if agrees else None, clause='root-or-error')
+    ctx.cov['components']['newton_secant']['flat_starts'] = nflat
+    ctx.cov['components']['newton_secant']['flat_starts_reported_both_streams'] = nflat_reported // 2
+    ctx.cov['components']['newton_secant']['flat_starts_not_reported'] = nsilent
+    ctx.cov['components']['newton_secant']['unexplained_nonroots'] = nnonroot
+
+    halley_and_secant_branch(ctx, meas, S, fams, flats)
+
+
+def halley_and_secant_branch(ctx, meas, S, fams, flats):
+    """the two remaining root-finding paths of solver_1d.newton (no Lean model: oracles only): Halley (fprime2 given) and
+    the plain-Python secant branch (fprime=None).  Clause: a returned number is a root to tolerance, otherwise the
+    failure is reported (None / FinError)."""
+    rng = ctx.rng('solver-args-newton2')
+    nq = 150 if ctx.quick() else 1500
+    cases = fams[:nq] + flats[: nq // 2]
+
+    def root_ok(a, r, tol):
+        fr, fd = fam_f(r, a), fam_d(r, a)
+        if fr == 0.0 or abs(fr) <= 10.0 * (tol + 1e-12) * max(abs(fd), 1.0) * 10.0 or math.isnan(fr):
+            return True
+        if a[0] >= 2:
+            h = 10.0 * tol * max(1.0, abs(r))
+            return fam_f(r - h, a) * fam_f(r + h, a) <= 0.0
+        return False
+
+    # ---- Halley
+    nnt = 0
+    for a in cases:
+        x0 = rng.uniform(-5, 5) if a[0] < 2 else flat_start(rng, a)
+        tol = rng.choice([1.48e-8, 1e-10, 1e-6])
+        mi = rng.choice([50, 50, 50, 20, 5, 1])
+        cnt = [0]
+
+        def f(x, args, cnt=cnt):
+            cnt[0] += 1
+            return fam_f(x, args)
+        v = call(S.newton, f, x0, fam_d, a, tol, mi, fam_d2)
+        case = {'solver': 'newton', 'method': 'halley', 'fam': a[0], 'coef': a[1:], 'x0': x0, 'tol': tol, 'maxiter': mi}
+        if v[0] == 'f':
+            nnt += 1
+            if not root_ok(a, v[1], tol):
+                ctx.violation('newton (Halley) returned a number that is not a root and did not report failure',
+                              dict(case, returned=v[1], f_at_returned=fam_f(v[1], a), f_evals=cnt[0]),
+                              finding='C20/newton-silent-nonconvergence' if cnt[0] >= mi else None, clause='failure-reported')
+        elif v[0] == 'e':
+            ctx.violation('newton (Halley) raised on valid arguments', dict(case, got=show(v)), clause='failure-reported')
+    ctx.count('newton-halley', len(cases), nnt)
+
+    # ---- secant branch of newton (fprime=None)
+    nnt = 0
+    for a in cases:
+        x0 = rng.uniform(-5, 5) if a[0] < 2 else flat_start(rng, a)
+        tol = rng.choice([1.48e-8, 1e-10, 1e-6])
+        mi = rng.choice([50, 50, 50, 20, 5, 1])
+        case = {'solver': 'newton', 'method': 'secant-branch (fprime=None)', 'fam': a[0], 'coef': a[1:], 'x0': x0, 'tol': tol,
+                'maxiter': mi}
+        evals = []
+
+        def g(x, *aa, evals=evals):
+            # accepts both conventions: the branch evaluates func(p, args) twice and func(p, *args) afterwards
+            if len(aa) == 1:
+                aa = aa[0]
+            y = fam_f(x, aa)
+            evals.append((x, y))
+            return y
+        v = call(S.newton, g, x0, None, a, tol, mi)
+        # the objective with the signature every other path of the module uses: f(x, args)
+        u = call(S.newton, fam_f, x0, None, a, tol, mi)
+        if u == ('e', 'TypeError') and v != u:
+            ctx.violation('newton (secant branch, fprime=None) raises TypeError for an objective f(x, args): the first two '
+                          'evaluations pass args, the later ones unpack *args', dict(case, with_tolerant_objective=show(v)),
+                          finding='C20/newton-secant-branch-unpacks-args', clause='solves-or-reports')
+        elif u != v and not (u[0] == 'f' and v[0] == 'f' and same(u, v, 1e-9, 1e-12)):
+            ctx.violation('newton (secant branch): result depends on the calling convention of the objective',
+                          dict(case, f_x_args=show(u), tolerant=show(v)), clause='solves-or-reports')
+        if v[0] == 'f':
+            nnt += 1
             r = v[1]
-            fr = fam_f(r, a)
-            if not is_root(a, r) and not math.isnan(fr):
-                # narrow classifier: the Lean model of the source (which provably returns only under the step-size
-                # criterion, theorem secant_returns_small_step_or_error) returns the same number
-                agrees = model is not None and same(v, model[i], 1e-6, 1e-8)
-                ctx.violation('newton_secant (disp=True) returned a number that is not near a root',
-                              dict(case, returned=r, f_at_returned=fr),
-                              finding='C20/secant-step-criterion-nonroot' if agrees else None, clause='root-or-error')
+            if not root_ok(a, r, tol):
+                exhausted = len(evals) >= mi + 2
+                last = evals[-1][0] if evals else None
+                # stopped by the step-size test np.isclose(p, p1, atol=tol): the returned update lies within tol of one of
+                # the two current abscissae (a midpoint of two distinct abscissae, 1e-4 or more apart, does not)
+                stepstop = (not exhausted) and any(abs(r - e[0]) <= tol for e in evals[-2:])
+                fid = ('C20/newton-silent-nonconvergence' if exhausted else
+                       'C20/newton-secant-branch-step-criterion-nonroot' if stepstop else None)
+                ctx.violation('newton (secant branch) returned a number that is not a root and did not report failure',
+                              dict(case, returned=r, f_at_returned=fam_f(r, a), f_evals=len(evals), last_evaluated=last),
+                              finding=fid, clause='failure-reported')
+        elif v[0] == 'e':
+            ctx.violation('newton (secant branch) raised on valid arguments', dict(case, got=show(v)), clause='failure-reported')
+    ctx.count('newton-secant-branch', len(cases), nnt)
 
 
 # ------------------------------------------------------------------------------------------- linear algebra
@@ -865,6 +1092,194 @@ def sobol_fit_section(ctx, meas):
         ctx.count('tension_spline', 1)
 
 
+# ------------------------------------------------------------------------------------------- sobol: every count
+SOBOL_COUNTS = [1, 2, 3, 4, 5, 7, 8, 9, 15, 16, 17, 31, 32, 33, 63, 64, 65, 127, 128, 129, 255, 256, 257, 1000, 1023, 1024, 1025,
+                4095, 4096, 4097]
+
+
+def sobol_ll_source():
+    """The `ll = ...` ("number of bits needed") expression of the CURRENT source of get_uniform_sobol, as a function of
+    num_points (extracted from the AST of py_func; evaluated by the interpreter)."""
+    import ast
+    import inspect
+    import textwrap
+    import numpy as np
+    from financepy.models.sobol import get_uniform_sobol
+    try:
+        tree = ast.parse(textwrap.dedent(inspect.getsource(get_uniform_sobol.py_func)))
+    except (OSError, TypeError, SyntaxError):
+        return None
+    for node in ast.walk(tree):
+        if (isinstance(node, ast.Assign) and len(node.targets) == 1 and isinstance(node.targets[0], ast.Name)
+                and node.targets[0].id == 'll'):
+            code = compile(ast.Expression(node.value), '<sobol ll>', 'eval')
+            fn = lambda n: int(eval(code, {'np': np, 'math': math, 'int': int, 'num_points': n}))   # noqa: S307,E731
+            fn.text = ast.unparse(node.value)
+            # the expression theorem sobolLLReal_spec (Props/C20e.lean) reads over the reals
+            fn.as_proved = ast.dump(node.value) == ast.dump(ast.parse(SOBOL_LL_PROVED, mode='eval').body)
+            return fn
+    return None
+
+
+SOBOL_LL_PROVED = 'int(np.ceil(np.log(num_points+1)/np.log(2.0)))'
+
+
+def sobol_point_checks(np, u, npts, d, ref):
+    """Direct oracles on one result of get_uniform_sobol(npts, d); returns a list of (clause, message, extra)."""
+    out = []
+    if u.shape != (npts, d):
+        return [('sobol-range', f'shape {u.shape} instead of {(npts, d)}', {})]
+    if not ((u > 0).all() and (u < 1).all()):
+        i, j = np.argwhere(~((u > 0) & (u < 1)))[0]
+        out.append(('sobol-range', 'Sobol point outside (0,1)', {'row': int(i), 'coordinate': int(j), 'value': float(u[i, j])}))
+    # the sequence is extensible: the first N points do not depend on how many points (or dimensions) are requested
+    if ref is not None and not np.array_equal(u, ref[:npts, :d]):
+        i, j = np.argwhere(u != ref[:npts, :d])[0]
+        out.append(('sobol-sequence-prefix', 'the points differ from the same points of a longer run of the same sequence',
+                    {'row': int(i), 'coordinate': int(j), 'value': float(u[i, j]), 'in_longer_run': float(ref[i, j]),
+                     'longer_run': list(ref.shape)}))
+    idx = np.arange(1, npts + 1)
+    lvl = np.frexp(idx.astype(float))[1]                        # bit length of i: 2^(lvl-1) <= i < 2^lvl (exact)
+    for j in range(d):
+        col = u[:, j]
+        if len(np.unique(col)) != npts:
+            vals, cnt = np.unique(col, return_counts=True)
+            rows = np.nonzero(col == vals[cnt > 1][0])[0]
+            out.append(('sobol-distinct', 'a coordinate value is repeated (two points of the sequence coincide in a 1-D projection)',
+                        {'coordinate': j, 'value': float(vals[cnt > 1][0]), 'rows': [int(r) for r in rows[:4]]}))
+            break
+        # point i (1-based, the origin is skipped) is an ODD multiple of 2^-(m+1), 2^m <= i < 2^(m+1)
+        y = col * np.exp2(lvl)
+        bad = ~((y == np.floor(y)) & (np.floor(y) % 2 == 1))
+        if bad.any():
+            i = int(np.argmax(bad))
+            out.append(('sobol-dyadic-level', 'point i is not an odd multiple of 2^-(floor(log2 i)+1)',
+                        {'coordinate': j, 'row': i, 'value': float(col[i]), 'level': int(lvl[i])}))
+            break
+        # van der Corput / (0,k,1)-net: the origin and the first 2^k - 1 points are the set {j/2^k}, each once
+        k = 1
+        while 2 ** k - 1 <= npts:
+            first = np.sort(np.concatenate(([0.0], col[: 2 ** k - 1]))) * 2 ** k
+            if not np.array_equal(first, np.arange(2 ** k, dtype=float)):
+                out.append(('sobol-stratified', 'the origin and the first 2^k - 1 points are not the set {j/2^k}',
+                            {'coordinate': j, 'k': k}))
+                break
+            k += 1
+        else:
+            continue
+        break
+    return out
+
+
+def sobol_counts_section(ctx, meas, drivers_ok):
+    """get_uniform_sobol over point counts on both sides of every power of two (and the powers themselves), not only 2^k - 1."""
+    import numpy as np
+    import financepy.utils.math as fm
+    from financepy.models.sobol import get_uniform_sobol, get_gaussian_sobol
+    rng = ctx.rng('sobol-counts')
+    quick = ctx.quick()
+    counts = list(SOBOL_COUNTS) + [rng.randrange(1, 5000) for _ in range(6)] + [2 ** rng.randrange(1, 13), 2 ** rng.randrange(1, 13) + rng.choice([-1, 1])]
+    counts += [2 ** 13] if quick else [2 ** 13, 2 ** 16, 2 ** 16 + 1, 2 ** 17 - 1]
+    dims_pool = [1, 2, 3, 4, 5, 8, 16, 40] if quick else [1, 2, 3, 4, 5, 8, 16, 40, 100, 400]
+    nref = 3 * max(counts) // 2 + 1          # not a power of two, not 2^k - 1
+    ref = get_uniform_sobol(nref, max(dims_pool))
+    ll_src = sobol_ll_source()
+    nviol = ndiff = 0
+    ops, expect = [], []
+    for npts in counts:
+        ds = [1, rng.choice(dims_pool), rng.choice(dims_pool)] if npts > 64 else [1, 2, 3, rng.choice(dims_pool)]
+        for d in sorted(set(ds)):
+            case = {'generator': 'get_uniform_sobol', 'num_points': npts, 'dimension': d}
+            u = call_raw(get_uniform_sobol, npts, d)
+            if isinstance(u, tuple):
+                ctx.violation('get_uniform_sobol raised on a valid point count', dict(case, got=show(u)), clause='sobol-range')
+                continue
+            for clause, msg, extra in sobol_point_checks(np, u, npts, d, ref):
+                nviol += 1
+                if nviol <= 6:
+                    ctx.violation('Sobol: ' + msg, dict(case, **extra), clause=clause)
+            if npts * d <= 70000:
+                u2 = call_raw(get_uniform_sobol.py_func, npts, d)
+                if isinstance(u2, tuple):
+                    ndiff += 1
+                    if ndiff <= 4:
+                        ctx.violation('get_uniform_sobol: the interpreted Python source raises where the compiled function '
+                                      'returns an array', dict(case, py_func=show(u2), compiled_last_row=[float(x) for x in u[-1, :4]]),
+                                      clause='compiled-eq-source')
+                elif not np.array_equal(u, u2):
+                    ndiff += 1
+                    i, j = np.argwhere(u != u2)[0]
+                    if ndiff <= 4:
+                        ctx.violation('get_uniform_sobol: compiled result differs from the interpreted Python source',
+                                  dict(case, row=int(i), coordinate=int(j), compiled=float(u[i, j]), py_func=float(u2[i, j])),
+                                  clause='compiled-eq-source')
+                if d == 1 and npts <= 4097 and ll_src is not None:
+                    ops.append(f'sobol1 {ll_src(npts)} {npts}')
+                    expect.append((case, u, u2))
+            ctx.count('sobol-counts', 1, 1, sample=case)
+    # Gaussian variant at the same kind of counts: elementwise norminvcdf of the uniform points
+    for npts in (7, 8, 64, 1000, 1024):
+        g = call_raw(get_gaussian_sobol, npts, 3)
+        u = call_raw(get_uniform_sobol, npts, 3)
+        case = {'generator': 'get_gaussian_sobol', 'num_points': npts, 'dimension': 3}
+        if isinstance(g, tuple) or isinstance(u, tuple):
+            ctx.violation('get_gaussian_sobol raised on a valid point count', dict(case, got=show(g) if isinstance(g, tuple) else show(u)),
+                          clause='sobol-gaussian')
+            continue
+        want = np.array([[fm.norminvcdf(x) for x in row] for row in u])
+        if g.shape != want.shape or not np.allclose(g, want, rtol=1e-12, atol=1e-13):
+            ctx.violation('get_gaussian_sobol is not norminvcdf of the uniform Sobol points', case, clause='sobol-gaussian')
+        if len(np.unique(g[:, 0])) != npts:
+            ctx.violation('get_gaussian_sobol repeats a draw', case, clause='sobol-distinct')
+        ctx.count('sobol-counts', 1, 1)
+
+    # ---- tie of the Lean model (Model/C20Sobol.lean, theorems Props/C20d.lean) to the current source
+    if ll_src is None:
+        ctx.broke('correspondence sobol: the assignment `ll = ...` was not found in the source of get_uniform_sobol')
+        return
+    if not ll_src.as_proved:
+        ctx.broke(f'proof: the source now computes the number of bits as `ll = {ll_src.text}`; theorem sobolLLReal_spec '
+                  f'(N < 2^ll for every N) is about `{SOBOL_LL_PROVED}` and no longer covers the source')
+    probes = sorted(set(counts + [2 ** k + e for k in range(0, 41) for e in (-1, 0, 1) if 2 ** k + e >= 1]))
+    bad_hyp = [n for n in probes if not n < 2 ** ll_src(n)]
+    ctx.cov['components'].setdefault('sobol-counts', {})['ll_probes'] = len(probes)
+    if bad_hyp:
+        ctx.broke(f'proof hypothesis: the source sizes the direction-number table with ll = {ll_src(bad_hyp[0])} at num_points = '
+                  f'{bad_hyp[0]}, which violates N < 2^ll (hypothesis of sobolDim1_ok / firstZeroIdx_le_of_lt_pow); '
+                  f'failing N among the probes: {bad_hyp[:8]}')
+    if drivers_ok:
+        try:
+            exact = [n for n in probes if n <= 2 ** 28 + 1]
+            mll = C.run_driver('C20', [f'sobolll {n}' for n in exact] + ops)
+            for n, m in zip(exact, mll):
+                if int(m) != ll_src(n):
+                    ctx.broke(f'correspondence sobol: source ll({n}) = {ll_src(n)} but the model\'s exact bit count is {m}')
+                    break
+            for (case, u, u2), ans in zip(expect, mll[len(exact):]):
+                impl_py = ('e', u2[1]) if isinstance(u2, tuple) else ('l', [int(x) for x in (u2[:, 0] * 2.0 ** 32)])
+                mod = ('e', ans[2:]) if ans.startswith('E:') else ('l', [int(x) for x in ans.split()])
+                if mod != impl_py:
+                    ctx.broke(f'correspondence sobol: Lean model of the first coordinate != interpreted source on {case} '
+                              f'(model {str(mod)[:80]}, py_func {str(impl_py)[:80]})')
+                    break
+            ctx.count('sobol-model', len(exact) + len(ops), len(ops))
+            ctx.cov['components']['sobol-counts']['compiled_py_disagreements'] = ndiff
+        except C.DriverError as e:
+            ctx.broke(f'model driver failed on component sobol: {str(e)[:300]}')
+
+
+def call_raw(fn, *a):
+    """result of fn, or ('e', ExceptionName) -- without canonicalisation (arrays stay arrays)."""
+    try:
+        with warnings.catch_warnings(), contextlib.redirect_stdout(_SINK):
+            warnings.simplefilter('ignore')
+            _SINK.seek(0)
+            _SINK.truncate()
+            return fn(*a)
+    except Exception as e:  # noqa: BLE001
+        return ('e', type(e).__name__)
+
+
 # ------------------------------------------------------------------------------------------- differential
 def differential_section(ctx, meas):
     """Supporting search: jit vs py_func over every dispatcher found by introspection (subprocess, crash-safe)."""
@@ -944,6 +1359,7 @@ def run(ctx):
         solvers_section(ctx, meas, drivers_ok)
         linalg_section(ctx, meas, drivers_ok)
         sobol_fit_section(ctx, meas)
+        sobol_counts_section(ctx, meas, drivers_ok)
         differential_section(ctx, meas)
     ctx.cov['measured_max_deviation'] = {k: float(f'{v:.3e}') for k, v in sorted(meas.m.items())}
     ctx.assumptions += [
@@ -956,9 +1372,9 @@ def run(ctx):
         'scipy.special.ndtr / ndtri and scipy.stats.multivariate_normal are the accuracy references (mpmath is absent)',
     ]
     return C.finish(ctx, 'proof',
-                    'lake build FinVerif.Props.C20a FinVerif.Props.C20b FinVerif.Props.C20c && lake env lean .cache/audit/Audit_C20.lean',
+                    'lake build FinVerif.Props.C20a FinVerif.Props.C20b FinVerif.Props.C20c FinVerif.Props.C20d FinVerif.Props.C20e && lake env lean .cache/audit/Audit_C20.lean',
                     C.TRUSTED_BASE_COMMON + ['SciPy special / stats as accuracy reference',
-                                             'hand models Model/C20.lean, Model/C20Phi2.lean tied by correspondence only'],
+                                             'hand models Model/C20.lean, Model/C20Phi2.lean, Model/C20Sobol.lean tied by correspondence only'],
                     RULE)
 
 
@@ -997,6 +1413,37 @@ def replay(ctx, path):
         r = call(S.newton, fam_f, case['x0'], fam_d, a, case['tol'], case['maxiter'])
         print('newton ->', show(r), 'f(returned)=', fam_f(r[1], a) if r[0] == 'f' else None)
         bad = r[0] == 'f' and abs(fam_f(r[1], a)) > 100.0 * (case['tol'] + 1e-12) * max(abs(fam_d(r[1], a)), 1.0)
+    elif case.get('solver') == 'newton_secant':
+        a = (case['fam'],) + tuple(case['coef'])
+        args = (int(a[0]),) + a[1:]
+        fnb = fam_nb()
+        bad = False
+        for nm, fn in (('compiled', S.newton_secant), ('py_func', S.newton_secant.py_func)):
+            r = call(fn, fnb, case['x0'], args, case['tol'], case['maxiter'], case['disp'])
+            print(f'newton_secant [{nm}] ->', show(r), 'f(returned)=', fam_f(r[1], a) if r[0] == 'f' else None)
+            if v.get('clause') == 'failure-reported':
+                bad = bad or r != ('e', 'FinError')
+            elif r[0] == 'f' and case['disp']:
+                fr = fam_f(r[1], a)
+                h = 10.0 * case['tol'] * max(1.0, abs(r[1]))
+                near = abs(fr) <= 1e-5 * max(abs(fam_d(r[1], a)), 1.0) or (a[0] >= 2 and fam_f(r[1] - h, a) * fam_f(r[1] + h, a) <= 0.0)
+                bad = bad or not near
+    elif case.get('generator') == 'get_uniform_sobol':
+        from financepy.models.sobol import get_uniform_sobol
+        npts, d = case['num_points'], case['dimension']
+        u = call_raw(get_uniform_sobol, npts, d)
+        u2 = call_raw(get_uniform_sobol.py_func, npts, d) if npts * d <= 70000 else None
+        ref = get_uniform_sobol(3 * npts // 2 + 5, d)
+        probs = [('sobol-range', 'compiled function raised', {})] if isinstance(u, tuple) else sobol_point_checks(np, u, npts, d, ref)
+        if isinstance(u2, tuple):
+            probs.append(('compiled-eq-source', 'py_func raised ' + u2[1], {}))
+        elif u2 is not None and not isinstance(u, tuple) and not np.array_equal(u, u2):
+            probs.append(('compiled-eq-source', 'compiled != py_func', {}))
+        for pr in probs:
+            print('  ', pr)
+        if not isinstance(u, tuple):
+            print('last row:', u[-1, :4].tolist())
+        bad = bool(probs)
     else:
         print('no dedicated replay for this component; re-run ./check C20 with VERIF_SEED=%s' % rp.get('seed'))
     if bad:
